@@ -829,3 +829,10 @@ class KeepOnly:
 
     def __getattr__(self, n):
         return getattr(self._r, n)
+
+
+class DropOnly(KeepOnly):
+    """Report proxy: forwards everything except obligations whose instance ends with one of `suffixes`."""
+
+    def _keep(self, instance):
+        return not any(str(instance).endswith(s) for s in self._s)
